@@ -123,8 +123,8 @@ def _one(ctx: Any, case: Dict[str, Any], name: str) -> None:
             if crash:
                 ctx.violation("jp.generator-crashed", {"error": crash}, case)
                 return
-            ctx.count("unobservable")
-            ctx.tag("tag_unobservable", f"cli exit {res.exit}: {res.stderr.strip().splitlines()[-1][:140] if res.stderr.strip() else ''}")
+            # the input and the options are valid by construction and the report this property is about was not produced
+            ctx.violation("jp.run-failed-on-valid-input", {"exit": res.exit, "error": res.stderr.strip().splitlines()[-1][:200] if res.stderr.strip() else ""}, case)
             return
         path = res.report("tax_report_jp")
         if not path:
